@@ -3,24 +3,32 @@
 * `ILock` replaces `storage.storage_instance.lock`: same observable behaviour as threading.Lock
   (release by any thread, RuntimeError on releasing a free lock) but it records every event, never blocks
   the interpreter (a busy acquire yields to the scheduler) and reports a self-deadlock instead of hanging.
-* `Recorder` installs a trace function that fires on every source line of the store classes (line table
-  and class ranges come from gen/lockcfg.py, i.e. from the current source), turns each line into the
-  micro-instructions of the Lean model, instantiated with the current operation's graph / size, and
-  (when a `Sched` is attached) hands control back to the scheduler before the line runs.
+* `Recorder` installs a trace function that fires on every source line of the store classes (class ranges come
+  from gen/lockcfg.layout, which does not interpret statements) and (when a `Sched` is attached) hands control
+  back to the scheduler before the line runs.
+* The micro-instructions a line performs are *observed*, not looked up: the store's shared state is replaced by
+  probed objects (`probe_store`) - data descriptors for `graphs` / `start_id` / `graph_node_ids` on a subclass of the
+  store class, dict subclasses for the node dictionaries of the graphs, for the per-graph store's `graphs` and for its
+  counters - that report every primitive access (counter read/write, node insert/delete/clear, entry replaced, any
+  read).  The accesses of one source line are folded into the vocabulary of the Lean model (`Recorder.fold`).  Nothing
+  here depends on the text of the store methods, so it works the same on source the translator does not recognise;
+  on source it does recognise, "the observed trace is a path of the generated skeleton" tests the translator's
+  ACCESS table against behaviour.
 * `Sched` runs N worker threads one line at a time following a decision procedure (explicit prefix, then
   non-preemptive default); `explore` enumerates schedules up to a preemption bound.
 
-Not modelled / not controlled: preemption inside one source line, CPython's atomicity of dict operations.
+Not controlled: preemption inside one source line (the probes see every primitive access, the scheduler switches threads
+only between lines of the store classes).
 """
 import os
 import sys
 import threading
 
 import networkx as nx
+from collections import defaultdict
 
 from core import REPO, err_kind
 
-K = 100  # symbolic size used by gen/lockcfg.py
 
 
 class SelfDeadlock(Exception):
@@ -43,6 +51,7 @@ class ILock:
 
     def acquire(self, blocking=True, timeout=-1):
         me = self.rec.current()
+        self.rec.flush(me)
         sched = self.rec.sched
         while self.held:
             if sched is None or self.owner == me:
@@ -58,6 +67,7 @@ class ILock:
 
     def release(self):
         me = self.rec.current()
+        self.rec.flush(me)
         self.rec.event(me, "rel")
         if not self.held:
             self.rel_err = True
@@ -76,55 +86,36 @@ class ILock:
         self.release()
 
 
-def instantiate(micro, g, k):
-    """symbolic micro string from the line table -> concrete JSON micro for graph index g (>=1), size k"""
-    p = micro.split()
-    if p[0] == "ctor":
-        return ["ctor", p[1] == "true"]
-    op, a = p[0], [int(x) for x in p[1:]]
-
-    def ctr(c):
-        return 0 if c == 0 else g
-
-    def size(s):
-        return k if s == K else (k + 1 if s == K + 1 else s)
-    if op in ("rdg", "loc", "delAll", "acq", "rel"):
-        return [op]
-    if op == "read":
-        return [op, ctr(a[0])]
-    if op == "bump":
-        return [op, ctr(a[0]), size(a[1])]
-    if op == "add":
-        return [op, ctr(a[0]), g, size(a[2])]
-    if op == "addFrom":
-        return [op, ctr(a[0]), g, a[2], size(a[3])]
-    if op == "setCtr":
-        return [op, ctr(a[0]), size(a[1])]
-    if op == "del":
-        return [op, g]
-    if op == "delSpace":
-        return [op, ctr(a[0])]
-    raise ValueError(micro)
-
-
-def symbolic(micro):
-    p = micro.split()
-    if p[0] == "ctor":
-        return ["ctor", p[1] == "true"]
-    return [p[0]] + [int(x) for x in p[1:]]
+def space_of(key):
+    """graph index of a store key 'graph-<n>' (0 = not one of the harness's graphs)"""
+    if isinstance(key, str) and key.startswith("graph-") and key[6:].isdigit():
+        return int(key[6:])
+    return 0
 
 
 class Recorder:
-    """Line tracer for the store classes."""
+    """Line tracer for the store classes + sink of the probes' observations.
 
-    def __init__(self, gen_report, sched=None):
+    Observations (one per primitive access, each a single dict / attribute operation of CPython):
+      ("T",)                      some read of the shared graph structure
+      ("R", c, value)             counter c read        ("W", c, old, new)   counter c written
+      ("NI", space, id, dict)     node inserted         ("ND", space, id, owner, dict)   node deleted
+      ("NC", space)               node dict of a graph cleared
+      ("ES", space, ids, owner)   per-graph store: entry replaced by a graph holding `ids`
+      ("DC",)                     per-graph store: dict of graphs cleared
+      ("unk", what)               an access the vocabulary has no word for
+    """
+
+    def __init__(self, layout, sched=None):
         self.sched = sched
         self.files = {}
-        for fl, rg in gen_report["ranges"].items():
+        for fl, rg in layout["ranges"].items():
             path = os.path.realpath(os.path.join(REPO, rg["file"]))
-            self.files[path] = (fl, rg["first"], rg["last"], {int(k): v for k, v in gen_report["lines"][fl].items()},
+            self.files[path] = (fl, rg["first"], rg["last"], None,
                                 {n: tuple(r) for n, r in rg["methods"].items()}, tuple(rg.get("shell", (rg["first"], rg["last"]))))
-        self.events = []          # (thread, symbolic micro, concrete micro)
+        self.events = []          # (thread, concrete micro)
+        self.pending = {}         # thread -> observations of the line being executed
+        self.regs = {}            # thread -> {counter: value read in the current store call}
         self.ctx = {}             # thread -> (g, k)
         self.tls = threading.local()
         self._fncache = {}
@@ -137,13 +128,116 @@ class Recorder:
     def current(self):
         return getattr(self.tls, "tid", 0)
 
+    def on(self):
+        return getattr(self.tls, "on", False)
+
     def set_ctx(self, g, k, op=None):
         self.ctx[self.current()] = (g, k)
         self.cur_op[self.current()] = op
 
     def event(self, tid, micro):
-        g, k = self.ctx.get(tid, (1, 0))
-        self.events.append((tid, symbolic(micro), instantiate(micro, g, k)))
+        self.events.append((tid, [micro] if isinstance(micro, str) else micro))
+
+    # ---- observations
+    def obs(self, *o):
+        if self.on():
+            self.pending.setdefault(self.current(), []).append(o)
+
+    def flush(self, tid):
+        group = self.pending.get(tid)
+        if group:
+            self.pending[tid] = []
+            for m in self.fold(tid, group):
+                self.events.append((tid, m))
+
+    def fold(self, tid, group):
+        """observations of one source line -> micro-instructions of the Lean model"""
+        ws = [o for o in group if o[0] != "T"]
+        if not ws:
+            return [["rdg"]]
+        regs = self.regs.setdefault(tid, {})
+        shared = self.flavour == "shared"
+        out = []
+        i = 0
+        while i < len(ws):
+            o = ws[i]
+            k = o[0]
+            if k == "R":
+                c = o[1]
+                j = i + 1
+                while j < len(ws) and ws[j][0] == "R" and ws[j][1] == c:
+                    j += 1
+                if j < len(ws) and ws[j][0] == "W" and ws[j][1] == c and ws[j][2] == o[2] and ws[j][3] >= ws[j][2]:
+                    out.append(["bump", c, ws[j][3] - ws[j][2]])          # read-modify-write within one line
+                    i = j + 1
+                    continue
+                regs[c] = o[2]
+                out.append(["read", c])
+                i += 1
+            elif k == "W":
+                c, old, new = o[1], o[2], o[3]
+                if c in regs and isinstance(new, int) and new >= regs[c]:
+                    out.append(["bumpReg", c, new - regs[c]])
+                elif isinstance(new, int) and new >= 0:
+                    out.append(["setCtr", c, new])
+                else:
+                    out.append(["unk", "counter set to %r" % (new,)])
+                i += 1
+            elif k == "NI":
+                sp, d = o[1], o[3]
+                ids = []
+                while i < len(ws) and ws[i][0] == "NI" and ws[i][1] == sp and ws[i][3] is d:
+                    ids.append(ws[i][2])
+                    i += 1
+                out.extend(self._adds(sp, ids, d, regs))
+            elif k == "ND":
+                sp, d = o[1], o[4]
+                owners = set()
+                while i < len(ws) and ws[i][0] == "ND" and ws[i][1] == sp and ws[i][4] is d:
+                    owners.add(ws[i][3])
+                    i += 1
+                left = {space_of(a.get("GraphID")) for a in dict.values(d)}
+                if len(owners) == 1 and not (owners & left):
+                    out.append(["del", next(iter(owners))])
+                else:
+                    out.append(["unk", "partial delete of graphs %s" % sorted(owners)])
+            elif k == "NC":
+                out.append(["delAll"] if shared else ["delSpace", o[1]])
+                i += 1
+            elif k == "ES":
+                out.append(["delSpace", o[1]])
+                out.extend(self._adds(o[1], o[2], o[3], {}))
+                i += 1
+            elif k == "DC":
+                out.append(["delAll"])
+                i += 1
+            else:
+                out.append(["unk", str(o[1:])])
+                i += 1
+        return out
+
+    def _adds(self, sp, ids, d, regs):
+        """insertions into id space `sp` -> add (ids taken from the counter value this thread read) / addFrom"""
+        out = []
+        if not all(isinstance(x, int) and x >= 0 for x in ids):
+            return [["unk", "non-integer internal id"]]
+        ids = sorted(ids)
+        runs = []
+        for x in ids:
+            if runs and x == runs[-1][0] + runs[-1][1]:
+                runs[-1][1] += 1
+            else:
+                runs.append([x, 1])
+        for lo, k in runs:
+            owners = {space_of(dict.get(d, x, {}).get("GraphID")) for x in range(lo, lo + k)} if isinstance(d, dict) else {d}
+            g = next(iter(owners)) if len(owners) == 1 else None
+            if g is None:
+                out.append(["unk", "one insertion for several graphs"])
+            elif regs.get(sp) == lo:
+                out.append(["add", sp, g, k])
+            else:
+                out.append(["addFrom", sp, g, lo, k])
+        return out
 
     # ---- tracing
     def _file(self, code):
@@ -170,19 +264,259 @@ class Recorder:
     def local_trace(self, frame, event, arg):
         if event == "line":
             tid = self.current()
+            self.flush(tid)                  # the previous line of this thread is complete
             if self.sched is not None:
                 self.sched.yield_point(tid)
-            f = self._file(frame.f_code)
-            for m in f[3].get(frame.f_lineno, ()):
-                self.event(tid, m)
         return self.local_trace
 
     def start(self, tid=0):
         self.tls.tid = tid
+        self.tls.on = True
         sys.settrace(self.global_trace)
 
     def stop(self):
         sys.settrace(None)
+        self.flush(self.current())
+        self.tls.on = False
+
+
+# --------------------------------------------------------------------------------------------
+# probes: the store's shared state reports every primitive access
+
+class ObsNodeDict(dict):
+    """`Graph._node` of a graph held by a store: internal id -> attribute dict"""
+
+    def bind(self, rec, space):
+        self.rec, self.space = rec, space
+        return self
+
+    def __setitem__(self, k, v):
+        new = not dict.__contains__(self, k)
+        dict.__setitem__(self, k, v)
+        if new:
+            self.rec.obs("NI", self.space, k, self)
+        else:
+            self.rec.obs("unk", "node %r replaced" % (k,))
+
+    def __delitem__(self, k):
+        owner = space_of(dict.get(self, k, {}).get("GraphID"))
+        dict.__delitem__(self, k)
+        self.rec.obs("ND", self.space, k, owner, self)
+
+    def clear(self):
+        dict.clear(self)
+        self.rec.obs("NC", self.space)
+
+    def _w(name):
+        def f(self, *a, **kw):
+            self.rec.obs("unk", "node dict %s" % name)
+            return getattr(dict, name)(self, *a, **kw)
+        return f
+
+    def _r(name):
+        def f(self, *a, **kw):
+            self.rec.obs("T")
+            return getattr(dict, name)(self, *a, **kw)
+        return f
+    update, pop, popitem, setdefault = _w("update"), _w("pop"), _w("popitem"), _w("setdefault")
+    __getitem__, __contains__, __len__ = _r("__getitem__"), _r("__contains__"), _r("__len__")
+    get, keys, values, copy = _r("get"), _r("keys"), _r("values"), _r("copy")
+    del _w, _r
+
+    # A scan of the node dictionary by a thread that does not hold the store's lock is a sequence of steps: the scheduler
+    # may run other threads between two elements (under the GIL a thread switch can happen between any two bytecodes of
+    # the Python-level filter / generator that consumes the iterator).  A scan under the lock is left alone.
+    def __iter__(self):
+        self.rec.obs("T")
+        w = self._unlocked()
+        return dict.__iter__(self) if w is None else _YieldIter(dict.__iter__(self), *w)
+
+    def items(self):
+        self.rec.obs("T")
+        w = self._unlocked()
+        return dict.items(self) if w is None else _YieldIter(iter(dict.items(self)), *w)
+
+    def _unlocked(self):
+        """(scheduler, thread) when the calling thread is scheduled and does not hold the store's lock"""
+        rec = self.rec
+        if rec.sched is None or not rec.on():
+            return None
+        tid = rec.current()
+        lk = rec.lock
+        if lk is not None and lk.held and lk.owner == tid:
+            return None
+        return rec.sched, tid
+
+
+class _YieldIter:
+    def __init__(self, it, sched, tid):
+        self.it, self.sched, self.tid = it, sched, tid
+
+    def __iter__(self):
+        return self
+
+    def __next__(self):
+        self.sched.yield_point(self.tid)
+        return next(self.it)
+
+
+def probe_graph(G, rec, space):
+    if not isinstance(G._node, ObsNodeDict):
+        d = ObsNodeDict(G._node)
+        G._node = d.bind(rec, space)          # (networkx resets its cached node views when _node is assigned)
+    else:
+        G._node.bind(rec, space)
+    return G
+
+
+class ObsGraphs(defaultdict):
+    """per-graph store: graph id -> Graph"""
+
+    def bind(self, rec):
+        self.rec = rec
+        return self
+
+    def __missing__(self, k):
+        G = probe_graph(nx.Graph(), self.rec, space_of(k))
+        dict.__setitem__(self, k, G)          # an empty entry: no node appears or disappears
+        return G
+
+    def __getitem__(self, k):
+        self.rec.obs("T")
+        return defaultdict.__getitem__(self, k)
+
+    def __setitem__(self, k, v):
+        sp = space_of(k)
+        if isinstance(v, nx.Graph):
+            ids = list(dict.keys(v._node))
+            probe_graph(v, self.rec, sp)
+            dict.__setitem__(self, k, v)
+            self.rec.obs("ES", sp, ids, v._node)
+        else:
+            dict.__setitem__(self, k, v)
+            self.rec.obs("unk", "entry set to a %s" % type(v).__name__)
+
+    def clear(self):
+        dict.clear(self)
+        self.rec.obs("DC")
+
+    def _w(name):
+        def f(self, *a, **kw):
+            self.rec.obs("unk", "graphs dict %s" % name)
+            return getattr(defaultdict, name)(self, *a, **kw)
+        return f
+
+    def _r(name):
+        def f(self, *a, **kw):
+            self.rec.obs("T")
+            return getattr(defaultdict, name)(self, *a, **kw)
+        return f
+    __delitem__, update, pop, popitem, setdefault = _w("__delitem__"), _w("update"), _w("pop"), _w("popitem"), _w("setdefault")
+    __contains__, __iter__, __len__ = _r("__contains__"), _r("__iter__"), _r("__len__")
+    get, keys, values, items, copy = _r("get"), _r("keys"), _r("values"), _r("items"), _r("copy")
+    del _w, _r
+
+
+class ObsCtr(defaultdict):
+    """per-graph store: graph id -> next internal id"""
+
+    def bind(self, rec):
+        self.rec = rec
+        self.quiet = False
+        return self
+
+    def __getitem__(self, k):
+        self.quiet = True
+        try:
+            v = defaultdict.__getitem__(self, k)       # (a missing key is filled in by the factory: not a write of the program)
+        finally:
+            self.quiet = False
+        self.rec.obs("R", space_of(k), v)
+        return v
+
+    def __setitem__(self, k, v):
+        if self.quiet:
+            return dict.__setitem__(self, k, v)
+        old = dict.get(self, k)
+        if old is None:
+            old = self.default_factory() if self.default_factory else None
+        dict.__setitem__(self, k, v)
+        self.rec.obs("W", space_of(k), old, v)
+
+    def _w(name):
+        def f(self, *a, **kw):
+            self.rec.obs("unk", "counter dict %s" % name)
+            return getattr(defaultdict, name)(self, *a, **kw)
+        return f
+    __delitem__, update, pop, popitem, setdefault, clear = (_w("__delitem__"), _w("update"), _w("pop"), _w("popitem"),
+                                                             _w("setdefault"), _w("clear"))
+    del _w
+
+
+class _Attr:
+    """data descriptor on the probed subclass of a store class; the value stays in the instance dict"""
+
+    def __init__(self, name, kind):
+        self.name, self.kind = name, kind
+
+    def __get__(self, obj, cls=None):
+        if obj is None:
+            return self
+        try:
+            v = obj.__dict__[self.name]
+        except KeyError:
+            raise AttributeError(self.name)
+        rec = _REC
+        if rec is not None:
+            if self.kind == "graphs":
+                rec.obs("T")
+            elif self.kind == "ctr":
+                rec.obs("R", 0, v)
+        return v
+
+    def __set__(self, obj, v):
+        rec = _REC
+        old = obj.__dict__.get(self.name)
+        if rec is not None:
+            if self.kind == "ctr":
+                rec.obs("W", 0, old, v)
+            elif self.kind == "graphs":
+                rec.obs("unk", "the graph container is replaced")
+                v = _probe_value(v, rec)
+            elif self.kind == "ctrs":
+                rec.obs("unk", "the counter table is replaced")
+                v = _probe_value(v, rec)
+        obj.__dict__[self.name] = v
+
+
+def _probe_value(v, rec):
+    if isinstance(v, nx.Graph):
+        return probe_graph(v, rec, 0)
+    if isinstance(v, defaultdict) and not isinstance(v, (ObsGraphs, ObsCtr)):
+        fac = v.default_factory
+        is_ctr = fac is not None and isinstance(fac(), int)
+        n = (ObsCtr(fac) if is_ctr else ObsGraphs(nx.Graph)).bind(rec)
+        for k, x in v.items():
+            dict.__setitem__(n, k, probe_graph(x, rec, space_of(k)) if isinstance(x, nx.Graph) else x)
+        return n
+    return v
+
+
+_PROBED = {}
+
+
+def probe_store(st, rec):
+    """replace the shared state of the store object by probed objects (same contents)"""
+    base = type(st)
+    cls = _PROBED.get(base)
+    if cls is None:
+        cls = _PROBED[base] = type(base.__name__, (base,), {
+            "graphs": _Attr("graphs", "graphs"), "start_id": _Attr("start_id", "ctr"),
+            "graph_node_ids": _Attr("graph_node_ids", "ctrs")})
+    for name in ("graphs", "graph_node_ids"):
+        if name in st.__dict__:
+            st.__dict__[name] = _probe_value(st.__dict__[name], rec)
+    st.__class__ = cls
 
 
 # --------------------------------------------------------------------------------------------
@@ -202,8 +536,10 @@ def fresh_store(flavour, rec):
     rec.shell_cls = type(imp.storage)
     rec.importer_cls = type(imp)
     _install_wrappers(type(imp.storage.storage_instance), flavour)
+    _wrap_shell(rec.shell_cls)
     global _REC
     _REC = rec
+    probe_store(rec.store0, rec)
     return imp, lock
 
 
@@ -239,10 +575,12 @@ def _install_wrappers(cls, flavour):
                     return fn(self, *a, **kw)
                 rec.depth[tid] = 1
                 lk = rec.lock
+                rec.flush(tid)                 # what the caller did before the call is not part of the call
+                rec.regs[tid] = {}
                 start = len(rec.events)
                 before = (lk.n_acq, lk.n_rel)
                 call = {"tid": tid, "method": "%s.%s" % (rec.flavour, name), "start": start, "outcome": "unfinished",
-                        "op": rec.cur_op.get(tid)}
+                        "op": rec.cur_op.get(tid), "ctx": rec.ctx.get(tid, (1, 0))}
                 rec.calls.append(call)
                 try:
                     r = fn(self, *a, **kw)
@@ -258,6 +596,7 @@ def _install_wrappers(cls, flavour):
                     call["outcome"] = "exc"
                     raise
                 finally:
+                    rec.flush(tid)
                     rec.depth[tid] = 0
                     call["end"] = len(rec.events)
                     call["acq"] = lk.n_acq - before[0]
@@ -267,6 +606,24 @@ def _install_wrappers(cls, flavour):
             return wrapper
         setattr(cls, name, mk(name, fn))
     cls._c20_wrapped = True
+
+
+def _wrap_shell(shell):
+    """constructing a shell (importer / graph object) = one evaluation of the singleton creation guard"""
+    if getattr(shell, "_c20_wrapped", False):
+        return
+    init = shell.__init__
+
+    def __init__(self, *a, **kw):
+        rec = _REC
+        before = shell.storage_instance
+        init(self, *a, **kw)
+        if rec is not None and rec.on() and before is not None:
+            tid = rec.current()
+            rec.flush(tid)
+            rec.event(tid, ["ctor", shell.storage_instance is not before])
+    shell.__init__ = __init__
+    shell._c20_wrapped = True
 
 
 def gid(g):
@@ -288,11 +645,6 @@ def make_graph(g, k, missing=None, direct=False, salt=""):
     return G
 
 
-METHOD_OF = {"add_graph": "add_graph", "add_graph_bad": "add_graph", "add_graph_direct": "add_graph_direct",
-             "del_graph": "del_graph", "extract_graph": "extract_graph", "get_graph": "get_graph",
-             "del_all_graphs": "del_all_graphs", "add_blank": "add_blank_node_to_graph", "add_node": None}
-
-
 def run_op(imp, rec, op, uniq):
     """op = [kind, g, k]; returns ["ok", summary] | ["err", kind]"""
     kind, g, k = op
@@ -302,6 +654,20 @@ def run_op(imp, rec, op, uniq):
         # the shell resolves the current store at every call
         imp = rec.importer_cls()
         st = imp.storage
+        if kind.endswith("_unh"):
+            # a graph id that cannot be a dictionary key: the call may fail, the lock must come back
+            bad = [gid(g)]
+            if kind == "get_graph_unh":
+                st.get_graph(bad)
+            elif kind == "extract_graph_unh":
+                st.extract_graph(bad)
+            elif kind == "del_graph_unh":
+                st.del_graph(bad)
+            elif kind == "add_blank_unh":
+                st.add_blank_node_to_graph(bad, Class="NetworkNode", NodeID="blank-%s" % uniq)
+            else:
+                raise ValueError(kind)
+            return ["ok", None]
         if kind == "add_graph":
             st.add_graph(gid(g), make_graph(g, k))
             return ["ok", None]
@@ -333,7 +699,7 @@ def run_op(imp, rec, op, uniq):
     except SelfDeadlock:
         return ["err", "deadlock"]
     except Exception as e:
-        return ["err", err_kind(e)]
+        return ["err", err_kind(e), str(e)[:80]]
 
 
 def snapshot(flavour, imp, lock, graphs):
@@ -342,14 +708,14 @@ def snapshot(flavour, imp, lock, graphs):
     idx = {gid(g): g for g in graphs}
     nodes = []
     if flavour == "shared":
-        ctr = [st.start_id]
-        for n, d in st.graphs.nodes(data=True):
-            nodes.append([0, n, idx.get(d.get("GraphID"), 0)])
+        ctr = [st.__dict__["start_id"]]
+        for n, d in st.__dict__["graphs"].nodes(data=True):
+            nodes.append([0, n, space_of(d.get("GraphID"))])
     else:
-        ctr = [st.graph_node_ids.get(gid(g), 1) for g in graphs]
-        for name, G in list(st.graphs.items()):
+        ctr = [dict.get(st.__dict__["graph_node_ids"], gid(g), 1) for g in graphs]
+        for name, G in list(dict.items(st.__dict__["graphs"])):
             for n, d in G.nodes(data=True):
-                nodes.append([idx.get(name, 0), n, idx.get(d.get("GraphID"), 0)])
+                nodes.append([space_of(name), n, space_of(d.get("GraphID"))])
     return {"lock": lock.owner if lock.held else None, "relErr": lock.rel_err, "ctr": ctr, "nodes": sorted(nodes),
             "gen": 0 if st is getattr(lock.rec, "store0", st) else 1}
 
@@ -395,6 +761,7 @@ class Sched:
     def worker(self, tid, rec, body):
         rec.tls.tid = tid
         self.go[tid].acquire()
+        rec.tls.on = True
         sys.settrace(rec.global_trace)
         try:
             body()
@@ -404,6 +771,11 @@ class Sched:
             self.error = e
         finally:
             sys.settrace(None)
+            rec.tls.on = False
+            try:
+                rec.flush(tid)
+            except Exception as e:      # noqa
+                self.error = self.error or e
             self.done[tid] = True
             self.back.release()
 
